@@ -468,3 +468,155 @@ def frag_dispatch():
     text += ",\n".join('  ("%s", "%s", "%s")' % (a, b.replace('"', "'"), c.replace('"', "'")) for a, b, c in sites)
     text += "\n]\n\nend Evp.Gen.Dispatch\n"
     return True, text, ""
+
+
+# ---------------------------------------------------------------------------------------------
+# pointer statements of callbacklist.h -> terms of Evp.PL.Stmt (CL/PtrLang.lean)
+# ---------------------------------------------------------------------------------------------
+
+class PtrStmts:
+    """stmts := stmt* ; stmt := 'if' '(' cond ')' '{' stmts '}' ('else' '{' stmts '}')? | path '=' rhs ';'
+    cond := path | path '==' path ; path := ident ('->' ident)* ; rhs := path | 'removedCounter'"""
+    VARS = {"node": 0, "beforeNode": 1}
+
+    def __init__(self, text):
+        self.toks = re.findall(r"->|==|[A-Za-z_]\w*|[{}();=]", strip_comments(text))
+        rest = re.sub(r"->|==|[A-Za-z_]\w*|[{}();=]|\s+", "", strip_comments(text))
+        if rest:
+            raise ValueError("unexpected characters in pointer code: %r" % rest[:40])
+        self.i = 0
+
+    def peek(self):
+        return self.toks[self.i] if self.i < len(self.toks) else None
+
+    def eat(self, t=None):
+        tok = self.peek()
+        if tok is None or (t is not None and tok != t):
+            raise ValueError("expected %r, found %r" % (t, tok))
+        self.i += 1
+        return tok
+
+    def path(self):
+        name = self.eat()
+        if name == "head":
+            p = ".head"
+        elif name == "tail":
+            p = ".tail"
+        elif name in self.VARS:
+            p = "(.var %d)" % self.VARS[name]
+        else:
+            raise ValueError("unknown pointer variable %r" % name)
+        while self.peek() == "->":
+            self.eat()
+            f = self.eat()
+            if f == "counter":
+                return ("counter", p)
+            if f not in ("previous", "next"):
+                raise ValueError("unknown field %r" % f)
+            p = "(.fld %s .%s)" % (p, "prev" if f == "previous" else "next")
+        return ("ptr", p)
+
+    def ptr(self):
+        k, p = self.path()
+        if k != "ptr":
+            raise ValueError("pointer expected")
+        return p
+
+    def cond(self):
+        a = self.ptr()
+        if self.peek() == "==":
+            self.eat()
+            return "(.eq %s %s)" % (a, self.ptr())
+        return "(.nonnull %s)" % a
+
+    def block(self):
+        self.eat("{")
+        s = self.stmts(until="}")
+        self.eat("}")
+        return s
+
+    def stmts(self, until=None):
+        out = []
+        while self.peek() is not None and self.peek() != until:
+            out.append(self.stmt())
+        if not out:
+            return ".skip"
+        r = out[-1]
+        for s in reversed(out[:-1]):
+            r = "(.seq %s %s)" % (s, r)
+        return r
+
+    def stmt(self):
+        if self.peek() == "if":
+            self.eat()
+            self.eat("(")
+            c = self.cond()
+            self.eat(")")
+            t = self.block()
+            e = ".skip"
+            if self.peek() == "else":
+                self.eat()
+                e = self.block()
+            return "(.ite %s %s %s)" % (c, t, e)
+        k, p = self.path()
+        self.eat("=")
+        if k == "counter":
+            self.eat("removedCounter")
+            self.eat(";")
+            return "(.markRemoved %s)" % p
+        r = self.ptr()
+        self.eat(";")
+        return "(.assign %s %s)" % (p, r)
+
+
+@fragment("ClFrag")
+def frag_cl():
+    """the straight-line pointer code of the callback list (doAppend, doInsert, doFreeNode) as Stmt terms, and the
+    boolean conditions that guard them (traversal guard, remove / insert / ownsHandle tests)"""
+    src = strip_comments(read_src("include/eventpp/callbacklist.h"))
+    out = {}
+    for name, sig in (("doAppend", r"void\s+doAppend\s*\(\s*NodePtr\s*&\s*node\s*\)\s*\{"),
+                      ("doInsert", r"void\s+doInsert\s*\(\s*NodePtr\s*&\s*node\s*,\s*NodePtr\s*&\s*beforeNode\s*\)\s*\{"),
+                      ("doFreeNode", r"void\s+doFreeNode\s*\(\s*NodePtr\s*&\s*node\s*\)\s*\{")):
+        body = find_function_body(src, sig)
+        p = PtrStmts(body)
+        out[name] = p.stmts()
+        if p.peek() is not None:
+            raise ValueError("trailing tokens in " + name)
+    # the conditions, as functions of (node counter, captured counter): 0 is removedCounter
+    atoms = {"node->counter!=removedCounter": "(nc != 0)", "counter>=node->counter": "decide (cap ≥ nc)",
+             "node": "nonnull", "beforeNode": "nonnull", "beforeNode->counter!=removedCounter": "(nc != 0)"}
+    body = find_function_body(src, r"bool\s+doForEachIf\s*\(\s*F\s*&&\s*f\s*\)\s*const\s*\{")
+    m = re.search(r"while\s*\(\s*node\s*\)\s*\{(?:\s*EVENTPP_VERIF_POINT\([^)]*\);)?\s*if\s*\((.*?)\)\s*\{\s*if\s*\(\s*!\s*f\s*\(\s*node\s*\)\s*\)", body, re.S)
+    if not m:
+        raise ValueError("doForEachIf loop not recognised")
+    guard = BoolExpr(m.group(1), atoms).parse()
+    body = find_function_body(src, r"bool\s+remove\s*\(\s*const\s+Handle\s*&\s*handle\s*\)\s*\{")
+    m = re.search(r"if\s*\((.*?)\)\s*\{\s*doFreeNode\s*\(\s*node\s*\)\s*;\s*return\s+true\s*;\s*\}\s*return\s+false\s*;", body, re.S)
+    if not m:
+        raise ValueError("remove() not recognised")
+    rem = BoolExpr(m.group(1), atoms).parse()
+    # insert(): the test that chooses between doInsert and doAppend, and whether it is made under the list mutex
+    body = BoolExpr.norm(re.sub(r"EVENTPP_VERIF_POINT\([^)]*\);", "", find_function_body(src, r"Handle\s+insert\s*\(\s*const\s+Callback\s*&\s*callback\s*,\s*const\s+Handle\s*&\s*before\s*\)\s*\{")))
+    m = re.search(r"if\(([^{};]*?)\)\{doInsert\(node,beforeNode\);\}else\{doAppend\(node\);\}", body)
+    if not m:
+        raise ValueError("insert() not recognised: " + body)
+    ins = BoolExpr(m.group(1), atoms).parse()
+    lockpos = body.find("std::lock_guard<Mutex>lockGuard(mutex);")
+    ins_locked = 0 <= lockpos < m.start()
+    # the block that holds the lock must be the one that contains the test (no closing brace in between)
+    if ins_locked and "}" in body[lockpos:m.start()]:
+        ins_locked = False
+    text = GEN_HEADER % "callbacklist.h doAppend / doInsert / doFreeNode bodies, doForEachIf guard, remove() and insert() tests"
+    text += "import EventppVerif.CL.PtrLang\nnamespace Evp.Gen.Cl\nopen Evp.PL\n\n"
+    for k, v in out.items():
+        text += "def %s : Stmt :=\n  %s\n\n" % (k, v[1:-1] if v.startswith("(") and v.endswith(")") else v)
+    text += "/-- the test in front of a callback's invocation in doForEachIf: nc = node->counter, cap = the captured counter -/\n"
+    text += "def guard (nc cap : Nat) : Bool := %s\n\n" % guard
+    text += "/-- the test in remove(): nonnull = the handle locked, nc = node->counter -/\n"
+    text += "def removeTest (nonnull : Bool) (nc : Nat) : Bool := %s\n\n" % rem
+    text += "/-- the test in insert() that selects doInsert (true) or doAppend (false): nc = beforeNode->counter -/\n"
+    text += "def insertTest (nc : Nat) : Bool := %s\n\n" % ins
+    text += "/-- is that test made after the list mutex was taken (in the same block)? -/\n"
+    text += "def insertTestLocked : Bool := %s\n\nend Evp.Gen.Cl\n" % ("true" if ins_locked else "false")
+    return True, text, ""
